@@ -396,10 +396,56 @@ def to_model_line(obs, mode):
     return {"layer": "frame", "op": "tx", "keys": keys, "msgs": msgs}, impl
 
 
+def run_event_format(ctx: Ctx):
+    """create_hap_event vs the model (HapModel/Event.lean) and vs the independent splitter."""
+    import pyhap.hap_event as he
+    from pyhap.util import to_hap_json
+
+    rng = ctx.rng
+    st = ctx.stats
+    cases = []
+    pool = ["", "a", "Küche", "厨房", "é€𝄞z", "x" * 9, "y" * 99, "z" * 999, "\u00e9\u20ac", "\"quoted\"", "\r\n\r\n"]
+    for i in range(ctx.n(120, 2000)):
+        k = rng.choice([1, 1, 2, 5])
+        data = []
+        for _ in range(k):
+            v = rng.choice([rng.choice(pool) * rng.choice([1, 1, 3]), rng.randrange(-5, 10**6), True, None, 1.5])
+            data.append({"aid": rng.randrange(1, 50), "iid": rng.randrange(1, 300), "value": v})
+        cases.append(data)
+    # lengths whose decimal representation changes width (9/10, 99/100, 999/1000 body bytes)
+    for n in (1, 5, 55, 56, 57, 955, 956, 957, 9955, 9956):
+        cases.append([{"aid": 1, "iid": 2, "value": "v" * n}])
+    lines, impl = [], []
+    for data in cases:
+        body = to_hap_json({"characteristics": data})
+        msg = he.create_hap_event(data)
+        impl.append({"msg": hx(msg)})
+        lines.append({"layer": "frame", "op": "event", "body": hx(body)})
+        # oracle: the message, followed by another message, splits cleanly and carries the body
+        follow = b"HTTP/1.1 204 No Content\r\n\r\n"
+        msgs, left = ref.split_messages(msg + follow)
+        if left or len(msgs) != 2 or msgs[0][0] != "event" or msgs[0][3] != body or msgs[0][1] != 200:
+            ctx.fail(
+                "C05:event-message-malformed",
+                f"an EVENT message with a {len(body)}-byte body does not split into exactly its body and the next message "
+                f"(declared length vs bytes differ or head malformed)",
+                {"kind": "event", "data": data},
+                size=len(body),
+            )
+        st.case(["event", hx(body[:40]), len(body)], any(ord(c) > 127 for d in data if isinstance(d["value"], str) for c in d["value"]) or len(data) > 1 or len(body) > 99)
+        st.hit("op", "event-format")
+    model = run_model("C05", lines)
+    for data, m, i in zip(cases, model, impl):
+        st.traces_validated += 1
+        if m != i:
+            ctx.disagree("event-format", {"data": str(data)[:200]}, _short(m), _short(i))
+
+
 def run(ctx: Ctx):
     hc, hp = _reload()
     st = ctx.stats
     rng = ctx.rng
+    run_event_format(ctx)
     st.rule = (
         "scripts over one verified connection of a real HAPServerProtocol+AccessoryDriver on a virtual clock: reads, "
         "writes, subscriptions, application value changes (events), timer advances, delayed snapshot responses, second "
@@ -470,6 +516,17 @@ def search(ctx: Ctx):
 
 def replay(ctx: Ctx, r):
     hc, hp = _reload()
+    if r.get("kind") == "event":
+        import pyhap.hap_event as he
+        from pyhap.util import to_hap_json
+
+        body = to_hap_json({"characteristics": r["data"]})
+        msg = he.create_hap_event(r["data"])
+        msgs, left = ref.split_messages(msg + b"HTTP/1.1 204 No Content\r\n\r\n")
+        bad = bool(left) or len(msgs) != 2 or msgs[0][3] != body
+        print("event message:", msg[:120], "...")
+        print("verdict:", "property violated on this input" if bad else "holds on this input")
+        return 1 if bad else 0
     obs = run_script(ctx, hc, hp, r["ops"], r["mode"], r["seed"])
     msgs = judge(ctx, obs, r["ops"], r["mode"], r["seed"])
     print("writes:", [(k, len(d)) for k, d in obs["writes"]])
